@@ -11,11 +11,35 @@ import (
 	"strings"
 	"testing"
 
+	"connectrpc.com/conformance/internal/compression"
+	conformancev1 "connectrpc.com/conformance/internal/gen/proto/go/connectrpc/conformance/v1"
 	"connectrpc.com/connect"
 )
 
 func init() {
 	verifKinds["c20.tracer"] = verifC20Tracer
+	verifKinds["c20.trhist"] = verifC20TrHist
+}
+
+var verifEncNames = map[int64]string{1: "identity", 2: "gzip", 3: "br", 4: "zstd", 5: "deflate", 6: "snappy"}
+
+// c20.trhist: enc ctor (ops) — the scripted history of c20.hist (verifHistRun) on the decompressor that
+// the tracer hands out for the NAME of the encoding (ctor 2: as registered, 3: upper case); the
+// compressor side is the compression package's.
+func verifC20TrHist(args []vsx) vsx {
+	enc, ctor := args[0].i, args[1].i
+	name, ok := verifEncNames[enc]
+	if !ok || (ctor != 2 && ctor != 3) {
+		return vL(vS("bad-case"))
+	}
+	if ctor == 3 {
+		name = strings.ToUpper(name)
+	}
+	comp, err := compression.GetCompressor(conformancev1.Compression(enc))
+	if err != nil {
+		return vL(vS("bad-case"))
+	}
+	return verifHistRun(enc, comp, GetDecompressor(name), args[2].l)
 }
 
 // 0 = decodes none of the six (brokenDecompressor or worse)
